@@ -16,7 +16,7 @@ EXPLANATION = ("H1 panic-source cone over the MIR call graph (resolved callees, 
                "leaves the driver loop with Err (dropping all reply senders); H5 a frame that has arrived completely is delivered or rejected, "
                "never awaited: the frame decoder's path rules (shared with C06 G1 / G2) and, in the default and the gssapi configuration, "
                "Decoder::decode on a connection without a security layer answers what the frame decoder answers - a test of its own may say "
-               "Ok(None) only for buffers too short to hold any complete element (rules/wrapper.py); H7 (C04 L6) the one-operation driver hands the connection back, and so stops decoding, only after the pending operation was answered.  Not decided: memory exhaustion on huge announced lengths; "
+               "Ok(None) only for buffers too short to hold any complete element (rules/wrapper.py); H7 (C04 L6) the one-operation driver hands the connection back, and so stops decoding, only after the pending operation was answered; H8 what is and is not an LDAPMessage envelope: the frame decoder interpreted exactly on literal element trees - a well-formed envelope (universal constructed SEQUENCE of messageID 0..maxInt, protocolOp, controls [0] OPTIONAL) is delivered with the ID and operation it holds, each single-field mutation (class, tag number or form of the outer element; an element in front of the message ID; the ID missing, of another class / tag / form, empty, negative or too wide; a primitive controls element) is answered with an error.  Not decided: memory exhaustion on huge announced lengths; "
                "panics inside external crates beyond the may-panic table.")
 TRUSTED = ['the frozen may-panic classification of external callees (listed in the evidence)', 'reviewed triage table rules/triage/C11.tsv']
 UNDECIDED = ['allocation size / memory exhaustion', 'panics inside external crates not marked #[track_caller] and not in the may-panic table',
